@@ -35,6 +35,37 @@ def check_sat(assertions, timeout_ms=500):
     return str(r)
 
 
+def _ground_lens(exprs):
+    out = {}
+    seen = set()
+    todo = list(exprs)
+    while todo:
+        x = todo.pop()
+        i = x.get_id()
+        if i in seen:
+            continue
+        seen.add(i)
+        if z3.is_quantifier(x):
+            todo.append(x.body())
+            continue
+        if z3.is_app(x):
+            if x.decl().name() == "len" and x.num_args() == 1 and not _has_var(x):
+                out[i] = x
+            todo.extend(x.children())
+    return list(out.values())[:40]
+
+
+def _has_var(x):
+    todo = [x]
+    while todo:
+        y = todo.pop()
+        if z3.is_var(y):
+            return True
+        if z3.is_app(y):
+            todo.extend(y.children())
+    return False
+
+
 _sk = [0]
 
 
@@ -66,8 +97,32 @@ def split_goal(goal, depth=0):
     return [([], goal)]
 
 
-def discharge(axioms, pc, goal, timeout_ms=None, both=False):
-    """prove  axioms /\\ pc  ==>  goal   (goal split into sub-goals; all must be proved; the first refuted one is reported)"""
+def discharge(axioms, pc, goal, timeout_ms=None, both=False, wf_axioms=()):
+    """prove  axioms /\\ wf_axioms /\\ pc  ==>  goal.  On `unknown` the query is repeated without the list
+    well-formedness axioms: `unsat` there still proves the goal (fewer hypotheses); `sat` there yields a candidate
+    counter-model (the dropped axioms only fix unobservable cells), flagged `model_modulo_wf`, to be replayed."""
+    timeout_ms = timeout_ms or QUICK_MS
+    first = min(timeout_ms, 6000) if wf_axioms else timeout_ms
+    r = _discharge(list(axioms) + list(wf_axioms), pc, goal, first, both)
+    if r.status != "undecided" or not wf_axioms:
+        return r
+    r2 = _discharge(list(axioms), pc, goal, timeout_ms, False)
+    if r2.status == "discharged":
+        r2.secs += r.secs
+        return r2
+    if r2.status == "refuted":
+        r2.secs += r.secs
+        r2.reason = (r2.reason + "; " if r2.reason else "") + "counter-model found after dropping the list-canonical-form axioms (full query: unknown)"
+        r2.modulo_wf = True
+        return r2
+    if first < timeout_ms:
+        r3 = _discharge(list(axioms) + list(wf_axioms), pc, goal, timeout_ms, both)
+        r3.secs += r.secs + r2.secs
+        return r3
+    return r
+
+
+def _discharge(axioms, pc, goal, timeout_ms=None, both=False):
     parts = split_goal(goal)
     if len(parts) <= 1:
         return discharge1(axioms, pc, goal, timeout_ms, both)
@@ -101,6 +156,16 @@ def discharge1(axioms, pc, goal, timeout_ms=None, both=False):
         return Result("discharged", "z3-5.1(api)", secs)
     if r == z3.sat:
         m = s.model()
+        # prefer a small witness: bound every ground list length that occurs in the query, keep the model if still sat
+        lens = _ground_lens(list(pc) + [goal])
+        if lens:
+            s.push()
+            s.set("timeout", 3000)
+            for t in lens:
+                s.add(t <= 2)
+            if s.check() == z3.sat:
+                m = s.model()
+            s.pop()
         return Result("refuted", "z3-5.1(api)", secs, model=m)
     smt2 = s.to_smt2()
     if r == z3.unsat and both:
